@@ -114,12 +114,18 @@ func Harness_C01_size_boundaries() {
 	}
 	body[0], body[1], body[n-2], body[n-1] = verif_Byte(), verif_Byte(), verif_Byte(), verif_Byte()
 	t := packet.Type(0x22)
-	_, err := wp.WritePacket(&packet.TransferPacket{PacketType: t, Payload: body}, false, 0)
+	// with compression the body is a low-entropy pattern: real gzip shrinks it by two orders of
+	// magnitude (the engine's gzip is an invertible pair without a ratio; the native replay of
+	// the per-size witnesses runs the real codec)
+	comp := verif_Bool()
+	_, err := wp.WritePacket(&packet.TransferPacket{PacketType: t, Payload: body}, comp, 0)
 	verif_Assert("C01.size.write", err == nil)
 	marker := []byte{verif_Byte(), 0xA5}
 	_, err = wp.WritePacket(&packet.TransferPacket{PacketType: t, Payload: marker}, false, 0)
 	verif_Assert("C01.size.write_marker", err == nil)
-	verif_Assert("C01.size.wire_length", len(sink.Buf) == 5+n+5+2)
+	if !comp {
+		verif_Assert("C01.size.wire_length", len(sink.Buf) == 5+n+5+2)
+	}
 
 	rd := &verifReader{Data: sink.Buf}
 	rp := NewStreamProcessor(rd, nil, ctx)
@@ -129,5 +135,17 @@ func Harness_C01_size_boundaries() {
 	got2, _, rerr2 := rp.ReadPacket()
 	verif_Assert("C01.size.read_marker", rerr2 == nil && got2 != nil && verif_BytesEq(got2.Payload, marker))
 	verif_Assert("C01.size.aligned", rd.Pos == len(rd.Data))
+	if comp {
+		switch base {
+		case 4096:
+			verif_Cover("C01.size.compressed.4k")
+		case 8192:
+			verif_Cover("C01.size.compressed.8k")
+		case 32768:
+			verif_Cover("C01.size.compressed.32k")
+		case 65536:
+			verif_Cover("C01.size.compressed.64k")
+		}
+	}
 	verif_Cover("C01.size.done")
 }
